@@ -692,8 +692,12 @@ func (r *Runner) RunNode(path []string) (res *NodeResult, err error) {
 		}
 		if p.Phase != "torn" {
 			// stores that bypassed the vfs between the previous real image and this one
-			isWriteAfter := p.Phase == "after" && (p.Op == "write" || p.Op == "writeat" || p.Op == "writefile")
-			if prevReal != nil && !isWriteAfter && prevReal.Image.Hash != p.Image.Hash {
+			// The difference between the "before" and the "after" image of a vfs call is the
+			// (atomic or separately torn) effect of that call itself; only what changed
+			// BETWEEN two calls — i.e. up to a "before" point or a named mark — is a store
+			// that went through a mapping.
+			isCallAfter := p.Phase == "after" && p.Op != "mark"
+			if prevReal != nil && !isCallAfter && prevReal.Image.Hash != p.Image.Hash {
 				imgs, files, ns := tornMmap(prevReal.Image, p.Image)
 				pa, pc := bounds(prevReal.Label)
 				for k, im := range imgs {
